@@ -8,8 +8,9 @@ EXPLANATION = (
     "name of the looked-up list is visited once (single loop over the list); (c) the chain-depth constants agree and "
     "un-renamed outputs are never queued for routing (rules shared with C16) — a queued un-renamed output is routed back to "
     "the streams that consume the input type and processed again."
+    " Route origins: the identifier source arms (plain, aliased, all-aliased) add the underlying event type to the stream's routes only under the sequence-operations flag or a named-pattern reference."
 )
-DECIDED = ["no duplicate routes", "routes are looked up by the event's own type in every entry point", "outputs are queued only in renamed form (shared with C16)", "chain depth limits agree"]
+DECIDED = ["no duplicate routes", "routes are looked up by the event's own type in every entry point", "outputs are queued only in renamed form (shared with C16)", "chain depth limits agree", "identifier sources are resolved to raw event types only for sequence streams"]
 NOT_DECIDED = ["per-stream processed-event counts as such", "behaviour beyond the documented chain depth of 10"]
 
 R = "varpulis_runtime::engine::"
